@@ -27,7 +27,7 @@ PROP = dict(
         "MM.C12.C12_converges_run",
     ],
     spec=True,
-    rule="cases = random topology (chain/ring/star/clique/tree+extra edges, 2..5 agents, rarely 9..20; thorough up to 7) x random local routes (CIDR v4/v6, domain exact/wildcard, forward; base metrics 0..10 and 65534) x op schedule written while driving the real mesh: bring links up (with/without table replay, before or between deliveries), deliver/duplicate/lose a chosen queued frame, announce, withdraw, expire a cached key, replay a table, stale cleanup, lose a connection (disconnect); rare streams: an origin with 256..315 routes (announcements and replays span several advertisements), a reroute case (link behind the next hop disappears while an equally long alternative exists), and a `race` stress op (one announcement handed to a fresh agent by k goroutines at once); every case drains to quiescence and dumps the whole state. After every op both sides print the acting agent's counter, seen cache, all four tables (metric, sequence, path, last-update tick) and the touched queues (origin, sequence, path, seen-by, routes+metrics). Non-trivial = an op that handled a frame, replayed a table or changed a cache/table. Engine c12 starts every script with STREAM_OPEN walks along learned routes at distance exactly max_hops and max_hops-1 for max_hops 1..4 (plus 16 hops and the unlimited case) and ends 30% of its cases (and every chain-at-the-limit case) with walks along up to two routes the real flooders just learned; spec: the open must reach the advertising agent (tags open-along-learned-route-refused / -lost). Engine c12 also adds clean convergence cases (whole topology up before any delivery, only deliveries/duplicates/announcements, every agent announces, FIFO drain, `dump converged`). spec: every learned route's next hop is a linked neighbour and the head of the path, consecutive path agents are linked, the path ends at the origin, the handleStreamOpen walk reaches the origin; at `dump converged` every agent holds every other agent's presence and every advertised route",
+    rule="cases = random topology (chain/ring/star/clique/tree+extra edges, 2..5 agents, rarely 9..20; thorough up to 7) x random local routes (CIDR v4/v6, domain exact/wildcard, forward; base metrics 0..10 and 65534) x op schedule written while driving the real mesh: bring links up (with/without table replay, before or between deliveries), deliver/duplicate/lose a chosen queued frame, announce, withdraw, expire a cached key, replay a table, stale cleanup, lose a connection (disconnect); rare streams: an origin with 256..315 routes (announcements and replays span several advertisements), a reroute case (link behind the next hop disappears while an equally long alternative exists), and a `race` stress op (one announcement handed to a fresh agent by k goroutines at once); every case drains to quiescence and dumps the whole state. After every op both sides print the acting agent's counter, seen cache, all four tables (metric, sequence, path, last-update tick) and the touched queues (origin, sequence, path, seen-by, routes+metrics). Non-trivial = an op that handled a frame, replayed a table or changed a cache/table. Engine c12 starts every script with UDP_OPEN walks (`uwalk`, the frame built by the real ingress code Agent.createDestAssociation through an overlay accessor, for routes of 1, 2, 3 and 5 hops; arrival = the origin answering ErrUDPDisabled) and STREAM_OPEN walks along learned routes at distance exactly max_hops and max_hops-1 for max_hops 1..4 (plus 16 hops and the unlimited case) and ends 30% of its cases (and every chain-at-the-limit case) with walks along up to two routes the real flooders just learned; spec: the open must reach the advertising agent (tags open-along-learned-route-refused / -lost). Engine c12 also adds clean convergence cases (whole topology up before any delivery, only deliveries/duplicates/announcements, every agent announces, FIFO drain, `dump converged`). spec: every learned route's next hop is a linked neighbour and the head of the path, consecutive path agents are linked, the path ends at the origin, the handleStreamOpen walk reaches the origin; at `dump converged` every agent holds every other agent's presence and every advertised route",
     nontrivial=lambda op, out: out.startswith(("r=new", "r=seen", "r=drop", "r=ord:", "r=removed")),
     trusted_base=[
         'harness/main/eng_c12w.go (`walk` op): one REAL agent per path element (agent.New, routing.max_hops set, never started; handshake-less injected peers via the c16 accessors, reused unmodified); the ingress STREAM_OPEN (RemainingPath = path[1:]) is carried hop by hop through Agent.processFrame/handleStreamOpen; arrival is the origin exit handler answering ErrNotAllowed for a destination outside its exit routes (no sockets)',
